@@ -219,14 +219,17 @@ def frames_of(stream):
     return out
 
 
-REQ_TYPES = ('worker', 'pworker', 'ctxcreate', 'ctxdelete', 'ctxworker')
-REC_CTX_ID = 7701          # context id used while recording (exists on the replay server too, see scenario set-up)
+REQ_TYPES = ('worker', 'pworker', 'ctxcreate', 'ctxdelete', 'ctxworker', 'uctxworker')
+REC_CTX_ID = 7701          # context of the healthy party: exists on every replay server ('ctxworker' requests name it)
+FAULTY_CTX_ID = 7702       # context id used by faulty 'ctxcreate' / 'ctxdelete' requests
+UNKNOWN_CTX_ID = 7703      # exists only while recording: 'uctxworker' = worker request naming an unknown context
 
 
-def record_streams(addr, scratch_dir):
+def record_streams(addr):
     """Run one well-formed client per request type against the server at `addr` with the tap on;
     returns {type: [header_frame, payload_frame]} - the bytes that client wrote on its data
-    connection before its first read."""
+    connection before its first read.  Call it through bounded() (a broken server may hang it);
+    all recordings of one run must be made by the same thread (thread ids are part of the payload)."""
     from pyworkers.remote import RemoteWorker
     from pyworkers.persistent_remote import PersistentRemoteWorker
     from pyworkers.remote_context import RemoteContext
@@ -242,28 +245,26 @@ def record_streams(addr, scratch_dir):
                 raise MachineryError('tap: a sendall() did not carry exactly one frame')
         return [fr[0], fr[1]]
 
-    def must(res, what):
-        if res[0] != 'ok':
-            raise MachineryError('recording a well-formed %s client failed: %s %r' % (what, res[0], res[1]))
-        return res[1]
-
     with Tap() as tap:
-        w = must(bounded(lambda: RemoteWorker(tg.ident, args=(1,), host=addr, main_path=TARGETS_PATH), 10), 'worker')
-        must(bounded(w.wait, 10), 'worker wait')
+        w = RemoteWorker(tg.ident, args=(1,), host=addr, main_path=TARGETS_PATH)
+        w.wait(10)
         out['worker'] = data_frames(tap, 0)
     with Tap() as tap:
-        w = must(bounded(lambda: PersistentRemoteWorker(tg.ident, host=addr, main_path=TARGETS_PATH), 10), 'pworker')
-        must(bounded(w.wait, 10), 'pworker wait')
+        w = PersistentRemoteWorker(tg.ident, host=addr, main_path=TARGETS_PATH)
+        w.wait(10)
         out['pworker'] = data_frames(tap, 0)
+    for name, cid in (('ctxworker', REC_CTX_ID), ('uctxworker', UNKNOWN_CTX_ID)):
+        ctx = RemoteContext(cid, host=addr, target=tg.ctx_fun, kwargs={'tok': 5})
+        with Tap() as tap:
+            w = PersistentRemoteWorker(None, host=addr, context=cid, main_path=TARGETS_PATH)
+            w.wait(10)
+            out[name] = data_frames(tap, 0)
+        ctx.wait()
     with Tap() as tap:
-        ctx = must(bounded(lambda: RemoteContext(REC_CTX_ID, host=addr, target=tg.ctx_fun, kwargs={'tok': 5}), 10), 'ctxcreate')
+        ctx = RemoteContext(FAULTY_CTX_ID, host=addr, target=tg.ctx_fun, kwargs={'tok': 6})
         out['ctxcreate'] = data_frames(tap, 0)
     with Tap() as tap:
-        w = must(bounded(lambda: PersistentRemoteWorker(None, host=addr, context=REC_CTX_ID, main_path=TARGETS_PATH), 10), 'ctxworker')
-        must(bounded(w.wait, 10), 'ctxworker wait')
-        out['ctxworker'] = data_frames(tap, 0)
-    with Tap() as tap:
-        must(bounded(ctx.wait, 10), 'ctxdelete')
+        ctx.wait()
         out['ctxdelete'] = data_frames(tap, 0)
     return out
 
@@ -282,8 +283,12 @@ def retarget_positions(rec_a, port_a, rec_b, port_b):
                 if fb[j:j + 3] == mb:
                     pos[t].append((k, j + 1))
                 j = fa.find(ma, j + 1)
-        if retarget(rec_a[t], pos[t], port_b) != list(rec_b[t]):
-            raise MachineryError('recordings of %s against two servers differ outside the port fields' % t)
+        for fa, fb in zip(retarget(rec_a[t], pos[t], port_b), rec_b[t]):
+            # the only other legitimate difference: the client pickles itself while its constructor
+            # thread is still setting `_dead` (a benign race inside the client) - one boolean opcode
+            bad = [i for i in range(max(len(fa), len(fb))) if fa[i:i + 1] != fb[i:i + 1] and fa[i - 6:i] != b'_dead\x94']
+            if bad or len(fa) != len(fb):
+                raise MachineryError('recordings of %s against two servers differ outside the port fields (offset %s)' % (t, bad[:3]))
     return pos
 
 
